@@ -212,6 +212,14 @@ Meshgrid(x) ==
         /\ res' = ValRes("tt", <<>>, x.I, DenseOf(x.I, LAMBDA ix : At(VecFill(x.I[q], x.f + q, x.cx), <<ix[q]>>)), "must")
                   @@ [R |-> [p \in 1..(Len(x.I) + 1) |-> 1]]
 
+\* the uniform-grid idiom meshgrid([v] * d): one vector object at every position (all modes of the same size)
+MeshgridSame(x) ==
+    /\ "meshgrid" \in OPS /\ x.k = "tt" /\ Len(x.I) >= 2 /\ \A p \in 1..Len(x.I) : x.I[p] = x.I[1]
+    /\ \E q \in 1..Len(x.I) :
+        /\ case' = [op |-> "meshgrid_same", x |-> x, q |-> q]
+        /\ res' = ValRes("tt", <<>>, x.I, DenseOf(x.I, LAMBDA ix : At(VecFill(x.I[1], x.f + 1, x.cx), <<ix[q]>>)), "must")
+                  @@ [R |-> [p \in 1..(Len(x.I) + 1) |-> 1]]
+
 \* ---------------------------------------------------------------------- C07
 SubsetsSeq(d) == {SetToSortSeq(S, <) : S \in (SUBSET (1..d)) \ {{}}}
 Reductions(op, x) ==
@@ -415,7 +423,7 @@ AlgNext(x) ==
     \/ KronOp(x)
     \/ MatVec(x) \/ VecMat(x) \/ MatMat(x) \/ MatDense(x)
     \/ \E op \in {"ones", "zeros", "eye", "rank1"} : Factory(op, x)
-    \/ Meshgrid(x)
+    \/ Meshgrid(x) \/ MeshgridSame(x)
     \/ \E op \in {"norm2", "norm", "sum_all", "sum_axes"} : Reductions(op, x)
     \/ Dot(x) \/ DotAxes(x) \/ Bilinear(x)
     \/ IndexT(x) \/ IndexM(x) \/ IndexMNone(x) \/ ApplyMask(x)
